@@ -651,33 +651,81 @@ func r03HalfOpenTables(c *core.Ctx) {
 	}
 	// (v) getInfiniteQuadrant and the quadrant bit layout
 	{
-		info := iq.Pkg.TypesInfo
+		// getInfiniteQuadrant folded over the two comparisons it makes: quadrant = (x >= cx ? 1 : 0) | (y >= cy ? 2 : 0),
+		// and the comparisons are >= (a child's Min side is the centroid line)
+		geqOK, layoutOK := true, true
+		evalWhy := ""
+		for m := 0; m < 4; m++ {
+			gx, gy := m&1 != 0, m&2 != 0
+			oracle := func(op token.Token, l, r evSym) (bool, bool) {
+				var ans bool
+				switch {
+				case l == "pt[0]" && r == "c[0]":
+					ans = gx
+				case l == "pt[1]" && r == "c[1]":
+					ans = gy
+				default:
+					return false, false
+				}
+				if op != token.GEQ {
+					geqOK = false
+				}
+				return ans, true
+			}
+			res, oc, err := evalPureWith(iq.SSA, []interface{}{evSym("pt"), evSym("c")}, 0, oracle)
+			if err != nil || oc != "return" || len(res) != 1 {
+				layoutOK = false
+				if err != nil {
+					evalWhy = err.Error()
+				}
+				continue
+			}
+			want := int64(0)
+			if gx {
+				want |= 1
+			}
+			if gy {
+				want |= 2
+			}
+			if v, ok := res[0].(int64); !ok || v != want {
+				layoutOK = false
+			}
+		}
 		geq := 0
-		shl := false
-		ast.Inspect(iq.Decl.Body, func(n ast.Node) bool {
-			be, ok := n.(*ast.BinaryExpr)
-			if !ok {
-				return true
-			}
-			if be.Op == token.GEQ {
-				geq++
-			}
-			if be.Op == token.GTR || be.Op == token.LSS || be.Op == token.LEQ {
-				geq = -10
-			}
-			if be.Op == token.SHL {
-				if k, ok := core.ConstInt(info, be.Y); ok && k == 1 {
-					// the shifted operand must be the y comparison
-					for _, a := range flavouredAtoms(info, be.X) {
-						if a.fl == "y" {
-							shl = true
+		if geqOK && evalWhy == "" {
+			geq = 2
+		}
+		shl := layoutOK
+		c.Check(R, "infinite-quadrant-uses-geq/pointindex.getInfiniteQuadrant", iq.Decl.Pos(), geq == 2, "both axes compare with >= against the centroid (a child's Min side is the centroid line)", "getInfiniteQuadrant does not use >= on both axes (or cannot be followed: "+evalWhy+"): a point on the centroid line is attributed to the quadrant that does not own it")
+		// the neighbour helpers, folded over all quadrant numbers: X-neighbour flips bit 0, Y-neighbour flips bit 1, two
+		// quadrants are adjacent iff they differ in exactly one bit
+		{
+			okAdj, whyAdj := true, ""
+			ax, ay, adj := c.P.Funcs["pointindex.adjacentQuadrantX"], c.P.Funcs["pointindex.adjacentQuadrantY"], c.P.Funcs["pointindex.quadrantsAreAdjacent"]
+			if ax == nil || ay == nil || adj == nil || ax.SSA == nil || ay.SSA == nil || adj.SSA == nil {
+				okAdj, whyAdj = false, "adjacentQuadrantX / adjacentQuadrantY / quadrantsAreAdjacent not found"
+			} else {
+				for q := int64(0); q < 4 && okAdj; q++ {
+					for _, t := range []struct {
+						f   *core.Func
+						xor int64
+					}{{ax, 1}, {ay, 2}} {
+						res, oc, err := evalPure(t.f.SSA, []interface{}{q}, 0)
+						if err != nil || oc != "return" || len(res) != 1 || res[0] != interface{}(q^t.xor) {
+							okAdj, whyAdj = false, fmt.Sprintf("%s(%d) is not %d", t.f.Name, q, q^t.xor)
+						}
+					}
+					for r := int64(0); r < 4 && okAdj; r++ {
+						res, oc, err := evalPure(adj.SSA, []interface{}{q, r}, 0)
+						want := (q^r) == 1 || (q^r) == 2
+						if err != nil || oc != "return" || len(res) != 1 || res[0] != interface{}(want) {
+							okAdj, whyAdj = false, fmt.Sprintf("quadrantsAreAdjacent(%d, %d) is not %v", q, r, want)
 						}
 					}
 				}
 			}
-			return true
-		})
-		c.Check(R, "infinite-quadrant-uses-geq/pointindex.getInfiniteQuadrant", iq.Decl.Pos(), geq == 2, "both axes compare with >= against the centroid (a child's Min side is the centroid line)", "getInfiniteQuadrant does not use >= on both axes: a point on the centroid line is attributed to the quadrant that does not own it")
+			c.Check(R, "quadrant-neighbour-tables/pointindex", iq.Decl.Pos(), okAdj, "adjacentQuadrantX/Y flip bit 0/1, quadrantsAreAdjacent <=> exactly one bit differs (all 4 / 16 cases)", "the quadrant neighbour helpers disagree with the bit layout: "+whyAdj)
+		}
 		// layout: right = bit 0, top = bit 1 everywhere
 		pk := iq.Pkg
 		rightC, _ := pk.Types.Scope().Lookup("right").(*types.Const)
@@ -1232,14 +1280,34 @@ func nnfAtoms(p *core.Prog, info *types.Info, e ast.Expr, neg bool, subst map[ty
 		}
 	case *ast.CallExpr:
 		if f := core.Callee(info, x); f != nil {
-			if hf := p.ByObj[f.Origin()]; hf != nil && hf.Decl.Body != nil && len(hf.Decl.Body.List) == 1 {
-				if ret, isRet := hf.Decl.Body.List[0].(*ast.ReturnStmt); isRet && len(ret.Results) == 1 {
+			if hf := p.ByObj[f.Origin()]; hf != nil && hf.Decl.Body != nil && len(hf.Decl.Body.List) >= 1 {
+				// a predicate helper: optional definitions of locals (each assigned once), then one return
+				body := hf.Decl.Body.List
+				ret, isRet := body[len(body)-1].(*ast.ReturnStmt)
+				if isRet && len(ret.Results) == 1 {
+					hinfo := hf.Pkg.TypesInfo
 					hs := hf.Obj.Type().(*types.Signature)
 					sub := map[types.Object]ast.Expr{}
 					for i := 0; i < hs.Params().Len() && i < len(x.Args); i++ {
 						sub[hs.Params().At(i)] = resolve(x.Args[i])
 					}
-					return nnfAtoms(p, hf.Pkg.TypesInfo, ret.Results[0], neg, sub, depth+1)
+					okDefs := true
+					for _, st := range body[:len(body)-1] {
+						as, isAs := st.(*ast.AssignStmt)
+						if !isAs || as.Tok != token.DEFINE || len(as.Lhs) != 1 || len(as.Rhs) != 1 {
+							okDefs = false
+							break
+						}
+						o := core.ObjOf(hinfo, as.Lhs[0])
+						if o == nil || assignedCount(hinfo, hf.Decl.Body, o) != 1 {
+							okDefs = false
+							break
+						}
+						sub[o] = as.Rhs[0]
+					}
+					if okDefs {
+						return nnfAtoms(p, hinfo, ret.Results[0], neg, sub, depth+1)
+					}
 				}
 			}
 		}
